@@ -246,7 +246,8 @@ fn remove_dividers_from_output(output: &OutputStream) -> OutputStream {
         }
         updated.push(line);
     }
-    updated.join(&b"\n"[..]).into()
+    // the lines still carry their line endings
+    updated.concat().into()
 }
 
 /// Compiles all shell expressions of a list of [`TestCase`]s into a single bash script
